@@ -20,7 +20,8 @@ func init() {
 			"R1 in-band sentinel exclusivity: Scope stores the constant \"\" in `repositories` to mean the registry catalog scope, so (a) the predicate that admits a resource scope into that representation (isKnown) answers true for a repository-typed scope only on paths that established Resource != \"\"; (b) in NewScope a non-constant name is appended only under isKnown() and not-registry-typed, and the constant \"\" only under registry-typed; (c) every search of `repositories` keyed by the constant \"\" is dominated by `r == CatalogScope`, and every search keyed by a caller-supplied name is dominated by ResourceType == repository and Resource != \"\" — otherwise a repository scope with an empty name is the catalog scope, or any registry-typed scope is; " +
 			"R2 Union returns its receiver itself, UnlimitedScope(), or the freshly built value — the receiver after the build only under built.Equal(receiver), the built value only under its negation; " +
 			"R3 in Holds and Contains no `return false` is reachable while the receiver is unlimited (every false answer is dominated by !receiver.IsUnlimited()), so the unlimited scope contains everything. " +
-			"R6 the iterator returned by Scope.Iter assigns to no variable of the enclosing call (it can be run again).",
+			"R6 the iterator returned by Scope.Iter assigns to no variable of the enclosing call (it can be run again). " +
+			"R7 scope operations never append to a slice belonging to an argument scope.",
 		NotDecided: "all algebraic laws over sets of triples (union/containment/membership/equality/length agree with the set model), strict ordering of Iter and the print/parse round trip are value-level and not decided.",
 		Technique:  "static analysis: SSA dominance of sentinel guards, predicate path analysis, return provenance",
 	})
